@@ -34,6 +34,10 @@ def profiles_for(pid, tier):
                                 ops=["ins", "ins_h", "rem", "get", "evict_all", "hold"], max_steps=d + 1, max_ins=3))
         edge.append(profile("woi-lru-evictall", "woi", algo="lru", memcap=9, max_steps=d - 1, hash={1: 5, 2: 6, 3: 7}))
         edge.append(profile("woe-s3fifo-evictall", "woe", algo="s3fifo", memcap=9, max_steps=d - 1))
+        # clear() while entries are in memory, in the write queue (flush held just before) and on disk
+        for pol in ("woe", "woi"):
+            edge.append(profile(f"{pol}-clear", pol, keys=[1, 2], hash={1: 5, 2: 6}, keyloc={1: "default", 2: "default"},
+                                ops=["ins", "ins_nt", "evict_all_nt", "clear", "get", "close"], max_steps=d + 1, max_ins=3))
         edge.append(profile("woe-nolog", "woe", tomblog=False, max_steps=d - 1, ops=["ins", "get", "evict_all", "hold", "gate", "close"]))
         # narrow alphabet, deep: one key (and a colliding one) through queue / flush / index windows
         for pol in ("woe", "woi"):
@@ -67,6 +71,10 @@ def profiles_for(pid, tier):
                             ops=["ins_nt", "evict_all_nt", "close", "get"], max_steps=d + 2, max_ins=3))
         edge.append(profile("woe-close-buffer2", "woe", hash=h, memcap=3, bufcap=2,
                             ops=["ins", "ins_nt", "evict_all_nt", "close", "get"], max_steps=d + 1, max_ins=4))
+        # close() while the device still holds writes of the batch in flight: it must not return
+        for pol in ("woi", "woe"):
+            edge.append(profile(f"{pol}-close-gated", pol, keys=[1, 2], hash={1: 5, 2: 6}, keyloc={1: "default", 2: "default"},
+                                ops=["ins", "evict_all", "gate", "close", "get"], max_steps=d, max_ins=2))
         edge.append(profile("woe-lru-close", "woe", algo="lru", memcap=9, hash=h,
                             ops=["ins", "get", "evict_all", "close"], max_steps=d))
     elif pid == "C17":
@@ -149,6 +157,8 @@ def gen_random(p, rng, num, length):
             elif a in ("rem", "get", "fetch", "sload") and a in p["ops"]:
                 ops.append({"a": a, "k": k})
             elif a in ("evict_all", "evict_all_nt"):
+                ops.append({"a": a})
+            elif a == "clear" and not hold and not gate:
                 ops.append({"a": a})
             elif a == "hold":
                 hold = not hold
